@@ -246,12 +246,16 @@ class Mon:
             self.rec.nt((self.case.get("idx") if self.case else None, sorted(sh.kinds), sh.n, tuple(before.shape), axis, str(before.dtype), norm_var, bool(kw["in_place"])))
 
 
-def _dataset(rng, big=False):
+def _dataset(rng, big=False, huge=False):
     F = int(rng.integers(1, 7))
     N = int(rng.choice([2, 3, 5, 12, 40, int(rng.integers(6, 200))]))
     if big:
         # long enough for accumulate calls of 2^k frames (block sizes of a chunked reduction) and their neighbours
         N = int(rng.choice([1024 + 37, 2048 + 5, 4096 + 100, 512 + 256 + 3, 3000, 8192 + 1]))
+    if huge:
+        # a corpus: the number of vectors passes 2^15, 2^16 (and 2^17) while the statistics are collected
+        N = int(rng.choice([32768 + 11, 65536 + 3, 65536 + 4096 + 1, 131072 + 5]))
+        F = int(rng.integers(1, 4))
     dtype = str(rng.choice(["float64", "float64", "float32", "int16", "int32"]))
     if dtype.startswith("int"):
         lim = 3000 if dtype == "int16" else 200000
@@ -308,7 +312,7 @@ def _feed(inst, data, rng, style):
         kind = style if style != "mixed" else str(rng.choice(["vec", "t2", "t2T", "t3", "t3mid"]))
         left = N - pos
         if style == "blocks":
-            sizes = [k + d for k in (64, 128, 256, 512, 1024, 2048, 4096, 8192) for d in (0, 0, 1, -1) if k + d <= left]
+            sizes = [k + d for k in (64, 128, 256, 512, 1024, 2048, 4096, 8192) + ((16384, 32768, 65536) if N > 30000 else ()) for d in (0, 0, 1, -1) if k + d <= left]
             k = int(rng.choice(sizes)) if sizes else left
             kind = str(rng.choice(["t2", "t2T", "t3", "t3mid"]))
             blk = data[pos:pos + k]
@@ -382,7 +386,10 @@ def run_case(case, rec, mon=None):
     with warnings.catch_warnings():
         warnings.simplefilter("ignore")
         big = case["idx"] % 12 == 7
-        data = _dataset(rng, big)
+        huge = case["idx"] % 96 == 7
+        data = _dataset(rng, big, huge)
+        if huge:
+            rec.count("data_sets_of_more_than_2^15_vectors")
         N, F = data.shape
         norm_var = bool(rng.random() < 0.75)
         K = int(rng.integers(2, 5))
